@@ -46,6 +46,10 @@ structure Geom where
   ioMayFail : Bool := false             -- the underlying I/O may fail: short writes are inside the contract
   lossless : Ty → Bool := fun _ => false  -- C01: caller types the encoding stores exactly
   holeZero : Ty → Bool := fun _ => false  -- does a frame nobody wrote (seek past the end, extending truncate) read as 0?
+  tailClean : Bool := false             -- the reader leaves the rest of the requested region untouched or zero-filled
+                                        -- (true of the modelled RAW/AU/WAV readers; NOT of the statement: a reader that finds
+                                        -- part of a sample behind the data, e.g. VOC's terminator byte, or a block decoder that
+                                        -- stages through the caller's buffer, e.g. DWVW, leaves other bytes there)
   frames0 : Nat := 0                    -- F: frames of the file when the transcript starts
   mode0 : Mode := .r                    -- mode of the handle when the transcript starts
 
@@ -166,7 +170,7 @@ def readOk (g : Geom) (st : St) (ty : Ty) (fc : Bool) (n : Int) (o : Out) : Res 
     -- a call that delivered what was asked leaves no error
     else if o.err then .bad "error" st'
     -- the rest of the requested region: untouched (0xA5 pre-fill) or zero-filled, as the wrapper dictates
-    else if !allOf o.data (pat ty) 0 got (req - got) then .bad "tail" st'
+    else if g.tailClean && !allOf o.data (pat ty) 0 got (req - got) then .bad "tail" st'
     -- "advances the read position by exactly r"
     else .ok st'
 
@@ -244,7 +248,11 @@ def seekOk (g : Geom) (st : St) (off whence : Int) (o : Out) : Res :=
   if o.ret = -1 then
     if !o.err then .bad "seek" st
     else match tgt with
-      | some t => if g.strictSeek ∧ t ≤ st.frames then .bad "seek-refused" { st with err := true } else .ok { st with err := true }
+      | some t =>
+        -- "a zero-offset SEEK_CUR ALWAYS reports the index of the next frame to be delivered"
+        if off = 0 ∧ whence % 0x10 = 1 then .bad "position" { st with err := true }
+        else if g.strictSeek ∧ t ≤ st.frames then .bad "seek-refused" { st with err := true }
+        else .ok { st with err := true }
       | none => .ok { st with err := true }
   else match tgt with
     | none => .bad "seek" st                                  -- a request that must be refused was answered
